@@ -639,7 +639,20 @@ class Registry:
         init = repo.module('yaql')
         sc = init.functions.get('_setup_context')
         if sc is not None:
-            self._scan_register(sc, 'finalizer')
+            # ... or by module-level helpers it calls
+            todo, seen = [sc], set()
+            while todo:
+                f = todo.pop()
+                if f.key in seen:
+                    continue
+                seen.add(f.key)
+                self._scan_register(f, 'finalizer')
+                for c in model.calls_in(f.node, shallow=True):
+                    if isinstance(c.func, ast.Name):
+                        h = init.functions.get(c.func.id)
+                        if h is not None and h.parent_func is None and \
+                                h.name not in ('create_context',):
+                            todo.append(h)
 
     def _scan_register(self, fi, ctx):
         mod = fi.module
